@@ -6,9 +6,12 @@ Proved here (symbolic shapes, dims 2 and 3):
   * UniformGrid: points[c2i(i,j,k)] = origin + i a1 + j a2 + k a3 (skewed axes), every documented weight scheme constructs,
     Rectangle / Trapezoid / Alternative weights are the documented constants and their sums deviate from the volume by at
     most sum 1/M_i.
-Everything else of C13 (molecule boxes, nearest point, interpolation, cube files, Fourier weights) is covered by the bounded layer.
+  * interpolate(use_log=True) = exp x complete Bell polynomial of the plain variant (any number of query points); closest_point for any query point.
+Everything else of C13 (molecule boxes, polynomial reproduction of the splines, cube files, Fourier weights) is covered by the bounded layer.
 """
 from __future__ import annotations
+
+from fractions import Fraction
 
 import z3
 
@@ -370,11 +373,144 @@ def log_variant(chk):
                     z3.BoolVal(len(shape) == 1) if len(shape) != 1 else T.zi(shape[0]) == Mq, func=fq, meta={"replay": rep})
 
 
+def closest_point(chk):
+    """UniformGrid.closest_point on diagonal axes (either sign), symbolic shape, ANY query point: the coordinates handed to
+    coordinates_to_index are valid integer coordinates (that function's precondition; its row-major postcondition is proved in index_maps),
+    and no node of the grid is closer to the point: per axis |x - c| <= |x - m| for every node coordinate m, hence
+    sum a_i^2 (x_i - c_i)^2 <= sum a_i^2 (x_i - m_i)^2.  which='origin': the lower corner floor(x), moved into the box."""
+    eng = chk.eng
+    fq = f"{MOD}.UniformGrid.closest_point"
+    cls = eng.get_class(MOD, "UniformGrid")
+    for dim in (2, 3):
+        n = z3.Ints("n0 n1 n2")[:dim]
+        mm = z3.Ints("m0 m1 m2")[:dim]
+        O = [z3.Real(f"o{d}") for d in range(dim)]
+        Ad = [z3.Real(f"a{d}{d}") for d in range(dim)]
+        Pq = [z3.Real(f"q{d}") for d in range(dim)]
+        rep = {"what": "closest", "dim": dim}
+        for which in ("closest", "origin"):
+            seen = []
+
+            def c2i_contract(eng_, f, args, kwargs, seen=seen):
+                coord = args[1]
+                seen.append(coord)
+                vals = [coord.fn(d) for d in range(dim)] if isinstance(coord, I.Arr) else list(coord)
+                flat = vals[0]
+                for d in range(1, dim):
+                    flat = T.add(T.mul(flat, n[d]), vals[d])
+                return flat
+
+            def thunk(eng_, which=which):
+                eng_.assume(z3.And(*[x > 1 for x in n]))
+                eng_.assume(z3.And(*[a != 0 for a in Ad]))
+                g = I.Obj(cls)
+                g.fields["_origin"] = I.Arr((dim,), lambda d: M.select_const(d, [lambda v=v: v for v in O]), "real")
+                g.fields["_axes"] = I.Arr((dim, dim), lambda r, d: M.select_const(r, [lambda r_=r_: M.select_const(d, [
+                    (lambda v=(Ad[r_] if r_ == d_ else Fraction(0)): v) for d_ in range(dim)]) for r_ in range(dim)]), "real")
+                g.fields["_shape"] = I.Arr((dim,), lambda d: M.select_const(d, [lambda v=v: v for v in n]), "int")
+                eng_.callee_contracts[f"{MOD}._HyperRectangleGrid.coordinates_to_index"] = c2i_contract
+                try:
+                    pt = I.Arr((dim,), lambda d: M.select_const(d, [lambda v=v: v for v in Pq]), "real")
+                    idx = eng_.call_method(g, "closest_point", pt, which)
+                    return idx, list(seen[-1].fn(d) for d in range(dim)) if seen else None
+                finally:
+                    eng_.callee_contracts.pop(f"{MOD}._HyperRectangleGrid.coordinates_to_index", None)
+            del seen[:]
+            outs = chk.explore(f"closest_point/{dim}d/{which}", thunk, func=fq)
+            rets = [o for o in outs if o.kind == "return"]
+            chk.add(f"closest_point/{dim}d/{which}/post/returns-for-every-point", [], z3.BoolVal(bool(rets) and len(rets) == len(outs)), func=fq,
+                    meta={"replay": rep, "paths": str([(o.kind, o.exc, o.note) for o in outs])})
+            for oi, o in enumerate(rets):
+                sfx = "" if len(rets) == 1 else f"@{oi}"
+                idx, coord = o.value
+                hy = list(o.pc)
+                if coord is None:
+                    chk.add(f"closest_point/{dim}d/{which}/post/index-from-coordinates{sfx}", [], z3.BoolVal(False), func=fq, meta={"replay": rep})
+                    continue
+                cs = [T.zr(c_) for c_ in coord]
+                xs = [(Pq[d] - O[d]) / Ad[d] for d in range(dim)]
+                flat = cs[0]
+                for d in range(1, dim):
+                    flat = flat * z3.ToReal(n[d]) + cs[d]
+                chk.add(f"closest_point/{dim}d/{which}/post/index-is-row-major-of-those-coordinates{sfx}", hy, T.zr(idx) == flat, func=fq, meta={"replay": rep})
+                # the scaled coordinate x_d = (q_d - o_d) / a_d appears in the code's term as one quotient: name it (keeps the queries linear)
+                named = True
+                for d in range(dim):
+                    divs = [u for u in T.subterms(cs[d]).values() if z3.is_app(u) and u.decl().kind() == z3.Z3_OP_DIV]
+                    divs = [u for u in divs if not any(u.get_id() != v_.get_id() and any(w.get_id() == u.get_id() for w in T.subterms(v_).values()) for v_ in divs)]
+                    if len(divs) != 1:
+                        chk.undecided.append((f"C13/closest_point/{dim}d/{which}/axis{d}", "scaled coordinate is not a single quotient"))
+                        named = False
+                        break
+                    Xd = z3.Real(f"x_scaled{d}")
+                    chk.add(f"closest_point/{dim}d/{which}/post/scaled-coordinate-axis{d}{sfx}", hy, divs[0] == xs[d], func=fq, meta={"replay": rep})
+                    cs = [z3.substitute(c_, (divs[0], Xd)) for c_ in cs]
+                    xs[d] = Xd
+                    hy = [z3.substitute(h, (divs[0], Xd)) if T.is_sym(h) else h for h in hy]
+                if not named:
+                    continue
+                for d in range(dim):
+                    inbox = z3.And(mm[d] >= 0, mm[d] < n[d])
+                    # the coordinate is a nest of if-then-else (rounding, clipping): one conjunct per case, each without a conditional
+                    try:
+                        cases = T.split_ites(cs[d], hy, max_cases=16)
+                    except T.Unsupported as e:
+                        chk.undecided.append((f"C13/closest_point/{dim}d/{which}/axis{d}", str(e)))
+                        continue
+
+                    def per_case(goal_of):
+                        return z3.And(*[z3.Implies(z3.And(*ex) if ex else z3.BoolVal(True), goal_of(T.zr(cv))) for ex, cv in cases])
+                    chk.add(f"closest_point/{dim}d/{which}/callee-pre/valid-integer-coordinate-axis{d}{sfx}", hy,
+                            per_case(lambda cv, d=d: z3.And(cv == z3.ToReal(z3.ToInt(cv)), cv >= 0, cv <= z3.ToReal(n[d]) - 1)), kind="post", func=fq, meta={"replay": rep})
+                    if which == "closest":
+                        # linear form of |x - c| <= |x - m| for integers c, m (lemma nearest-integer-is-nearest below)
+                        chk.add(f"closest_point/{dim}d/closest/post/no-node-coordinate-closer-axis{d}{sfx}", hy + [inbox],
+                                per_case(lambda cv, d=d: z3.And(z3.Implies(z3.ToReal(mm[d]) > cv, xs[d] <= cv + z3.RealVal("1/2")),
+                                                                z3.Implies(z3.ToReal(mm[d]) < cv, xs[d] >= cv - z3.RealVal("1/2")))), func=fq, meta={"replay": rep})
+                    else:
+                        # lower corner: the largest node coordinate not above x when there is one, else 0
+                        chk.add(f"closest_point/{dim}d/origin/post/lower-corner-axis{d}{sfx}", hy + [inbox],
+                                per_case(lambda cv, d=d: z3.And(z3.Implies(xs[d] >= 0, z3.And(cv <= xs[d], z3.Implies(z3.ToReal(mm[d]) <= xs[d], z3.ToReal(mm[d]) <= cv))),
+                                                                z3.Implies(xs[d] < 0, cv == 0))), func=fq, meta={"replay": rep})
+                if which == "closest" and oi == 0:
+                    ci, mi = z3.Ints("c_int m_int")
+                    xr = z3.Real("x_real")
+                    lin = [z3.Implies(mi > ci, xr <= z3.ToReal(ci) + z3.RealVal("1/2")), z3.Implies(mi < ci, xr >= z3.ToReal(ci) - z3.RealVal("1/2"))]
+                    dc, dm = xr - z3.ToReal(ci), xr - z3.ToReal(mi)
+                    chk.chain(f"closest_point/{dim}d/closest/lemma/nearest-integer-is-nearest", lin,
+                              [("difference-of-squares", dm * dm - dc * dc == z3.ToReal(ci - mi) * (2 * xr - z3.ToReal(ci + mi))),
+                               ("m-above", z3.Implies(mi > ci, z3.And(z3.ToReal(ci - mi) <= -1, 2 * xr - z3.ToReal(ci + mi) <= 0))),
+                               ("m-below", z3.Implies(mi < ci, z3.And(z3.ToReal(ci - mi) >= 1, 2 * xr - z3.ToReal(ci + mi) >= 0))),
+                               ("product-nonnegative", z3.ToReal(ci - mi) * (2 * xr - z3.ToReal(ci + mi)) >= 0)],
+                              dc * dc <= dm * dm, kind="lemma", func=fq)
+                if which == "closest" and oi == 0:
+                    # Euclidean statement from the per-axis ones (axes are orthogonal: squared distance = sum a_d^2 (x_d - c_d)^2)
+                    e = [z3.Real(f"e{d}") for d in range(dim)]
+                    f_ = [z3.Real(f"f{d}") for d in range(dim)]
+                    hyp = [z3.And(e[d] >= 0, f_[d] >= 0, e[d] <= f_[d]) for d in range(dim)]
+                    chk.add(f"closest_point/{dim}d/closest/lemma/sum-of-weighted-squares-monotone", hyp,
+                            sum(Ad[d] * Ad[d] * e[d] for d in range(dim)) <= sum(Ad[d] * Ad[d] * f_[d] for d in range(dim)), kind="lemma", func=fq)
+        # non-diagonal axes are refused
+        def t_skew(eng_):
+            g = I.Obj(cls)
+            off = z3.Real("a01")
+            eng_.assume(off != 0)
+            g.fields["_origin"] = I.Arr((dim,), lambda d: Fraction(0), "real")
+            g.fields["_axes"] = I.Arr((dim, dim), lambda r, d: M.select_const(r, [lambda r_=r_: M.select_const(d, [
+                (lambda v=(Fraction(1) if r_ == d_ else (off if (r_, d_) == (0, 1) else Fraction(0))): v) for d_ in range(dim)]) for r_ in range(dim)]), "real")
+            g.fields["_shape"] = I.Arr((dim,), lambda d: 3, "int")
+            return eng_.call_method(g, "closest_point", I.Arr((dim,), lambda d: Fraction(0), "real"), "closest")
+        outs = chk.explore(f"closest_point/{dim}d/skewed", t_skew, func=fq)
+        chk.add(f"closest_point/{dim}d/raises/non-diagonal-axes", [], z3.BoolVal(bool(outs) and all(o.kind == "raise" and o.exc == "ValueError" for o in outs)),
+                func=fq, meta={"replay": rep})
+
+
 def build(chk):
     index_maps(chk)
     tensor_grid(chk)
     uniform_grid(chk)
     log_variant(chk)
+    closest_point(chk)
 
 
 def main(tier="quick", seed=0, bounded=True, proof=True):
@@ -383,7 +519,7 @@ def main(tier="quick", seed=0, bounded=True, proof=True):
         "NumPy model of meshgrid/vstack/reshape/transpose/swapaxes/kron/dot (pyvc.npmodel; conformance-tested against NumPy)",
         "integers are mathematical (no int64 overflow); floats are reals",
         "np.linalg.det is the Leibniz formula (2x2, 3x3); np.abs(det) > 0 is the constructor's own guard",
-        "clauses not proved here (molecule box, nearest point, interpolation, cube files, Fourier weights): bounded layer only",
+        "clauses not proved here (molecule box, polynomial reproduction of the splines, cube files, Fourier weights): bounded layer only",
     ]
     if proof:
         build(chk)
